@@ -78,6 +78,9 @@ def _variant(rng, sub):
     if kind == 2:
         return cirq.CircuitOperation(sub, repetitions=-2, repetition_ids=["a", "b"])  # cannot be carried by the message: must be refused, not altered
     if kind == 3:
+        if rng.random() < 0.5:
+            # custom ids that are NOT used for the keys (the flag travels separately from the ids)
+            return cirq.CircuitOperation(sub, repetitions=2, repetition_ids=["a", "b"], use_repetition_ids=False)
         return cirq.CircuitOperation(sub, repetitions=3, use_repetition_ids=rng.random() < 0.5)
     if kind == 4:
         return cirq.CircuitOperation(sub, param_resolver={"s": rng.choice([u, 2 * u, u + 0.5, 0.25, 1])})
